@@ -35,7 +35,7 @@ P = {
  "C19": ("Byte-level Borsh codecs of the three instruction enums proved sound and complete (round trip, canonicity, injectivity, trailing/truncated/unknown-selector rejection, selector uniqueness, strict dispatch).", "Coq proof (codec laws) + byte-exact direct-call correspondence", "7-C19"),
  "C20": ("Machine-checked refinement: the fills ring as coded behaves, for every buy/dequeue sequence, like a list queue of capacity 8.", "Coq refinement proof (ring -> list queue) + direct-call correspondence", "7-C20"),
 }
-CLAIMED = ["C01", "C02", "C03", "C04", "C05", "C06", "C07", "C08", "C09", "C10", "C11", "C12", "C14", "C15", "C16", "C17", "C18", "C19", "C20"]   # extended by hand as proofs land
+CLAIMED = ["C01", "C02", "C03", "C04", "C05", "C06", "C07", "C08", "C09", "C10", "C11", "C12", "C13", "C14", "C15", "C16", "C17", "C18", "C19", "C20"]   # extended by hand as proofs land
 checks, na = [], []
 for pid in sorted(P):
     text, tech, ref = P[pid]
